@@ -22,7 +22,7 @@ RULE = (
     "failed raises a TransportError; every parked command is successfully written exactly once and never attempted again afterwards; a "
     "command is only written at a wake of its own node; nothing else is written. Thorough enumerates every combination (5 keys, subsets of "
     "size 1-4, wake sequences up to 3, all subsets of attempts 0-5) for the three versions; quick enumerates a slice and samples the rest. "
-    "A 'race' kind adds schedules: one write of the flush fails while application sends arrive (C09's scheduler, every interleaving and every position of the single fault); the last value sent per key must still be written once both nodes have woken fault-free. Non-trivial = a fault lands inside a flush that had >= 2 commands pending; distinct = distinct case JSON."
+    "A 'stream' kind replays the law on real asyncio streams over a socketpair: the device sends its wake line and drops the link, the controller reconnects, and the device must end up with every parked command exactly once. A reconnect flag makes the application leave and re-enter the gateway context after a failed flush. A 'race' kind adds schedules: one write of the flush fails while application sends arrive (C09's scheduler, every interleaving and every position of the single fault); the last value sent per key must still be written once both nodes have woken fault-free. Non-trivial = a fault lands inside a flush that had >= 2 commands pending; distinct = distinct case JSON."
 )
 ASSUMPTIONS = [
     "faults are raised by the transport's write before anything is recorded (an all-or-nothing write)",
@@ -53,11 +53,16 @@ def strategy(tier: str):
             "wakes": st.lists(st.sampled_from((1, 1, 2)), min_size=1, max_size=4),
             "faults": st.lists(st.integers(0, 7), max_size=4, unique=True).map(sorted),
             "fault_class": st.sampled_from(("failed", "failed", "base", "read")),
+            "reconnect": st.booleans(),
         }
     )
 
 
 def enumerate_cases(tier: str):
+    for version in ("2.0", "2.2"):
+        for parked in (1, 2, 3):
+            for drop in ("close", "shutdown"):
+                yield {"kind": "stream", "version": version, "parked": parked, "drop": drop}
     for version in ("2.0", "2.2") if tier == "quick" else ("2.0", "2.1", "2.2"):
         for parked in (1, 2) if tier == "quick" else (1, 2, 3):
             for senders in ([[0, True]], [[1, True]], [[0, True], [0, True]], [[3, True]]):
@@ -78,6 +83,87 @@ def enumerate_cases(tier: str):
                                    "fault_class": ("failed", "base", "read")[(mask + size + nw) % 3]}
 
 
+def _run_stream(case: dict) -> Outcome:
+    """The same law on a real asyncio stream: the device sends its wake line and drops the link; after a reconnect and
+    another wake the peer must have received every parked command exactly once."""
+    import asyncio
+    import socket
+
+    from aiomysensors.gateway import Gateway
+    from aiomysensors.transport import StreamTransport
+
+    version = case["version"]
+    wake = f"1;255;3;0;{32 if version == '2.2' else 22};5\n".encode()
+    lines = [f"1;{c};1;0;{t};v{i}\n" for i, (c, t) in enumerate(((0, 0), (1, 0), (0, 2))[: case["parked"]])]
+
+    class PairTransport(StreamTransport):
+        def __init__(self) -> None:
+            super().__init__()
+            self.peers: list[socket.socket] = []
+
+        async def _open_connection(self):
+            ours, theirs = socket.socketpair(socket.AF_UNIX, socket.SOCK_STREAM)
+            self.peers.append(theirs)
+            return await asyncio.open_unix_connection(sock=ours)
+
+    async def go() -> Outcome | None:
+        transport = PairTransport()
+        gateway = Gateway(transport)
+        gateway.protocol_version = version
+        env.install_registry(gateway.nodes, REGISTRY)
+        await transport.connect()
+        for i, (c, t) in enumerate(((0, 0), (1, 0), (0, 2))[: case["parked"]]):
+            await gateway.send(env.mk_message([1, c, 1, 0, t, f"v{i}"]))
+        first = transport.peers[0]
+        first.sendall(wake)
+        if case["drop"] == "close":
+            first.close()
+        else:
+            first.shutdown(socket.SHUT_RDWR)
+        agen = gateway.listen()
+        try:
+            await agen.__anext__()
+            status = "ok"
+        except Exception as err:  # noqa: BLE001
+            status = type(err).__name__
+        finally:
+            await agen.aclose()
+        await transport.disconnect()
+        await transport.connect()
+        second = transport.peers[1]
+        peer_reader, peer_writer = await asyncio.open_unix_connection(sock=second)
+        received = b""
+        for _ in range(3):
+            peer_writer.write(wake)
+            await peer_writer.drain()
+            agen = gateway.listen()
+            try:
+                await agen.__anext__()
+            except Exception as err:  # noqa: BLE001
+                return fail("stream:wake-after-reconnect-raised", f"after the reconnect the wake raised {err!r}")
+            finally:
+                await agen.aclose()
+        await transport.disconnect()
+        received = await peer_reader.read(-1)
+        peer_writer.close()
+        if case["drop"] != "close":
+            first.close()
+        got = received.decode().splitlines(keepends=True)
+        for line in lines:
+            if got.count(line) == 0:
+                return fail("stream:command-lost", f"link dropped during the flush (first wake gave {status}); after reconnect and three wakes the device received {got!r}, never {line!r}")
+            if got.count(line) > 1:
+                return fail("stream:command-repeated", f"the device received {line!r} {got.count(line)} times: {got!r}")
+        return None
+
+    bad = env.run(go())
+    classes = ("stream-kind", f"version={version}")
+    if bad is not None:
+        bad.classes = classes
+        return bad
+    return Outcome(ok=True, nontrivial=True, classes=classes)
+
+
 def _run_race(case: dict) -> Outcome:
     """One failing write inside a flush that races with sends: all schedules (C09's scheduler); nothing may be lost."""
     from vf.props import c09
@@ -95,6 +181,8 @@ def _run_race(case: dict) -> Outcome:
 def run_case(case: dict) -> Outcome:
     if case.get("kind") == "race":
         return _run_race(case)
+    if case.get("kind") == "stream":
+        return _run_stream(case)
     version = case["version"]
     wake_type = 32 if version == "2.2" else 22
     parked = case["parked"]
@@ -132,6 +220,10 @@ def run_case(case: dict) -> Outcome:
             if status == "leak":
                 return fail(f"leak:{env.exc_sig(value)}", f"{where}: {value!r}")
             failed = [l for _s, l, f in step_attempts if f]
+            if failed and case.get("reconnect"):
+                # the application reacts to the transport error the way the README suggests: leave the context, enter it again
+                await gateway.__aexit__(None, None, None)
+                await gateway.__aenter__()
             if failed:
                 info["faults_hit"] += 1
                 if len(pending) >= 2:
